@@ -38,7 +38,7 @@ TEXT = {
             "full"),
     "C15": ("Proved on the container/inflate model for all byte strings: truncation theorems at the entry points (C15_gunzip_truncated, C15_zlibDecode_truncated, C15_inflateRaw_truncated, and hypothesis-free for every level-0 stream), checks applied (C15_gzip_check, C15_zlib_check), altered trailers rejected (C15_gzip_field_altered, C15_zlib_field_altered), header checks (C15_gzip_signature, C15_zlib_header), lifted to decode_body for the gzip layer. Single-bit flips inside compressed data are checked on the implementation against the three allowed outcomes with an independent CRC-32 / Adler-32.",
             "partial: theorems about the model of flate2; fidelity validated on valid streams, truncations and field edits"),
-    "C16": ("Proved: C16_some_only_if_text, C16_default_charset, C16_charset_decides, C16_utf8_exact (against core's declarative IsValidUTF8), C16_latin1_total, C16_latin1_ascii, C16_latin1_no_replacement, kernel-evaluated label facts over the 228-row table, C18_charset_label_case. Legacy multi-byte decoders are not modelled (label resolution and absence of U+FFFD checked on the implementation).",
+    "C16": ("Proved: C16_some_only_if_text, C16_default_charset, C16_charset_decides, C16_charset_first_param and C16_charset_absent (which parameter decides, for every parameter list), C16_utf8_exact (against core's declarative IsValidUTF8), C16_latin1_total, C16_latin1_ascii, C16_latin1_no_replacement, kernel-evaluated label facts over the 228-row table, C18_charset_label_case. Legacy multi-byte decoders are not modelled (label resolution and absence of U+FFFD checked on the implementation).",
             "full for UTF-8 and the default; legacy decoders by observation"),
     "C17": ("Proved on the exact model of Rust's integer parsers: C17_request_content_length, C17_chunk_size, C17_status_code (acceptance implies digits only); exhaustive strings over a 13-symbol alphabet in all five positions against the implementation.",
             "full"),
